@@ -216,7 +216,7 @@ theorem scanAfter_pot (R : Nat) (rec : IS → Byte → Nat → Nat → Out LoopR
     (hm : s1.m + 1 ≤ s.m ∨ s1.m = 0)
     (hshape : (∃ ps, s1.fail = false ∧ s1.eof = false ∧ s1.pre = c1 :: ps) ∨ s1.m = 0) :
     ∃ r, scanAfter rec stop pb cm iters s1 c1 len steps = .ok r ∧ r.s.m ≤ s.m ∧
-      r.steps + pot R r.s ≤ steps + pot R s + 1 := by
+      r.steps + pot R r.s ≤ steps + pot R s + 1 ∧ (pb = false → r.s.m ≤ s1.m) := by
   have hs1 : s1.m ≤ s.m := by omega
   have hs1f : s1.m + 1 ≤ fuel := by omega
   have hge := pot_ge (R := R) hpos
@@ -227,7 +227,7 @@ theorem scanAfter_pot (R : Nat) (rec : IS → Byte → Nat → Nat → Out LoopR
     · rw [pot_zero hm]; omega
   unfold scanAfter
   split
-  · refine ⟨_, rfl, ?_, ?_⟩
+  · refine ⟨_, rfl, ?_, ?_, ?_⟩
     · simp only []
       split
       · rcases hm with hm | hm
@@ -243,6 +243,7 @@ theorem scanAfter_pot (R : Nat) (rec : IS → Byte → Nat → Nat → Out LoopR
         · have := putback_m_zero s1 c1 hm
           rw [pot_zero this]; omega
       · omega
+    · intro hpb; subst hpb; simp
   · split
     · rename_i hc1
       generalize hpk : s1.peek = pk
@@ -266,12 +267,12 @@ theorem scanAfter_pot (R : Nat) (rec : IS → Byte → Nat → Nat → Out LoopR
           rw [hr]
           simp only []
           obtain ⟨r2, hr2, hrm2, hrp2⟩ := ih r.s c1 len (steps + 1 + r.steps) (by omega)
-          exact ⟨r2, hr2, by omega, by omega⟩
+          exact ⟨r2, hr2, by omega, by omega, fun _ => by omega⟩
         · exfalso; simp [IS.m, hf1] at hz
       · have hp2 : s2.m ≤ s1.m := by have := peek_m s1; rw [hpk] at this; exact this
         have := pot_mono (R := R) hp2
         obtain ⟨r, hr, hrm, hrp⟩ := ih s2 c1 (len + 1) (steps + 1) (by omega)
-        exact ⟨r, hr, by omega, by omega⟩
+        exact ⟨r, hr, by omega, by omega, fun _ => by omega⟩
     · split
       · rename_i hq
         rcases hshape with ⟨ps, hf1, he1, hpre⟩ | hz
@@ -288,7 +289,7 @@ theorem scanAfter_pot (R : Nat) (rec : IS → Byte → Nat → Nat → Out LoopR
           have hps2 : pot R s2 + 4 * str.length ≤ pot R s := by
             rw [pot_pos hs2pos, pot_pos hpos]; omega
           obtain ⟨r, hr, hrm, hrp⟩ := ih s2 c1 (len + (cstr str).length) (steps + 1 + str.length) (by omega)
-          exact ⟨r, hr, by omega, by omega⟩
+          exact ⟨r, hr, by omega, by omega, fun _ => by omega⟩
         · have h0 := putback_m_zero s1 c1 hz
           obtain ⟨hz2, hstr⟩ := sdaiStringRead_failed h0
           generalize sdaiStringRead (s1.putback c1) = sr at hz2 hstr
@@ -297,11 +298,11 @@ theorem scanAfter_pot (R : Nat) (rec : IS → Byte → Nat → Nat → Out LoopR
           subst hstr
           obtain ⟨r, hr, hrm, hrp⟩ := ih s2 c1 (len + (cstr ([] : List Byte)).length) (steps + 1 + ([] : List Byte).length) (by omega)
           rw [pot_zero hz2] at hrp
-          exact ⟨r, hr, by omega, by simp at hrp ⊢; omega⟩
+          exact ⟨r, hr, by omega, by simp at hrp ⊢; omega, fun _ => by omega⟩
       · split
-        · exact ⟨_, rfl, hs1, by simp only []; omega⟩
+        · exact ⟨_, rfl, hs1, by simp only []; omega, fun _ => Nat.le_refl _⟩
         · obtain ⟨r, hr, hrm, hrp⟩ := ih s1 c1 (len + 1) (steps + 1) hs1f
-          exact ⟨r, hr, by omega, by omega⟩
+          exact ⟨r, hr, by omega, by omega, fun _ => by omega⟩
 
 /-- `SkipInstance` / `FindStartOfInstance`, all nesting levels counted: at most four steps per consumed byte plus the
 comment reserve `R` once, plus one -/
@@ -322,13 +323,51 @@ theorem scanUntil_pot (R : Nat) (stop : Byte) (pb cm : Bool) (iters : Nat) (hR :
       cases o with
       | none =>
         have hz := extract_none hex
-        exact scanAfter_pot R _ stop pb cm iters fuel hR ih s s' c len steps (by omega) hpos (Or.inr hz) (Or.inr hz)
+        obtain ⟨r, h1, h2, h3, _⟩ := scanAfter_pot R _ stop pb cm iters fuel hR ih s s' c len steps (by omega) hpos (Or.inr hz) (Or.inr hz)
+        exact ⟨r, h1, h2, h3⟩
       | some c' =>
         obtain ⟨hf1, he1, ⟨ps, hpre⟩, hlt⟩ := extract_some hex
-        exact scanAfter_pot R _ stop pb cm iters fuel hR ih s s' c' len steps (by omega) hpos (Or.inl hlt)
+        obtain ⟨r, h1, h2, h3, _⟩ := scanAfter_pot R _ stop pb cm iters fuel hR ih s s' c' len steps (by omega) hpos (Or.inl hlt)
           (Or.inl ⟨ps, hf1, he1, hpre⟩)
+        exact ⟨r, h1, h2, h3⟩
     · simp at hg
       simp [hg]
+
+/-- a scan that does not put the stop byte back strictly consumes from a good stream (or ends failed) -/
+theorem scanUntil_strict (R : Nat) (stop : Byte) (cm : Bool) (iters : Nat) (hR : iters ≤ R)
+    (fuel : Nat) (s : IS) (c : Byte) (len steps : Nat) (h : s.m + 1 ≤ fuel) (hg : s.good = true) :
+    ∀ r, scanUntil stop false cm iters fuel s c len steps = .ok r → r.s.m + 1 ≤ s.m ∨ r.s.m = 0 := by
+  cases fuel with
+  | zero => omega
+  | succ fuel =>
+    intro r
+    show scanStep (scanUntil stop false cm iters fuel) stop false cm iters s c len steps = .ok r → _
+    unfold scanStep
+    simp only [hg, Bool.not_true, Bool.false_eq_true, if_false]
+    have hpos := good_m_pos hg
+    have ih := scanUntil_pot R stop false cm iters hR fuel
+    generalize hex : s.extract = ex
+    obtain ⟨s', o⟩ := ex
+    cases o with
+    | none =>
+      have hz := extract_none hex
+      obtain ⟨r', h1, _, _, h4⟩ := scanAfter_pot R _ stop false cm iters fuel hR ih s s' c len steps (by omega) hpos (Or.inr hz) (Or.inr hz)
+      intro he
+      simp only [] at he
+      rw [h1] at he
+      cases he
+      have := h4 rfl
+      omega
+    | some c' =>
+      obtain ⟨hf1, he1, ⟨ps, hpre⟩, hlt⟩ := extract_some hex
+      obtain ⟨r', h1, _, _, h4⟩ := scanAfter_pot R _ stop false cm iters fuel hR ih s s' c' len steps (by omega) hpos (Or.inl hlt)
+        (Or.inl ⟨ps, hf1, he1, hpre⟩)
+      intro he
+      simp only [] at he
+      rw [h1] at he
+      cases he
+      have := h4 rfl
+      omega
 
 
 /-- step bound of a function from streams to results, started with a step counter -/
